@@ -16,3 +16,4 @@ pub mod type2;
 pub mod cff;
 pub mod container;
 pub mod cffgen;
+pub mod otl;
